@@ -23,7 +23,10 @@ def finite_values(max_mag=1e30, min_mag=1e-30):
     """Finite floats in the property's bounded magnitude range, half of them edge values."""
     mags = st.floats(min_value=min_mag, max_value=max_mag, allow_nan=False, allow_infinity=False)
     gen = st.builds(lambda m, neg: -m if neg else m, mags, st.booleans())
-    return st.one_of(st.sampled_from(EDGE_VALUES), gen, st.floats(min_value=-1e6, max_value=1e6, allow_nan=False))
+    # the third branch adds "ordinary" magnitudes; Hypothesis likes subnormals there, which are outside the
+    # stated domain (|x| in {0} U [min_mag, max_mag]): they are flushed to zero
+    ordinary = st.floats(min_value=-1e6, max_value=1e6, allow_nan=False).map(lambda x: 0.0 if abs(x) < min_mag else x)
+    return st.one_of(st.sampled_from(EDGE_VALUES), gen, ordinary)
 
 
 def moderate_values(lo=1e-3, hi=1e3, signed=True):
